@@ -7,8 +7,107 @@ source reaches the translator in the shape it knows. Every rule is an identity o
 * `if not c: S1 else: S2`  ->  `if c: S2 else: S1`                    (only when both branches are present)
 * `if c: S (S ends in return/raise)` followed by `else: T`            is left alone (translators handle both spellings)
 
+* `t = f(...)` immediately followed by `a, b, c = t`, `t` not mentioned anywhere else in the function  ->  `a, b, c = f(...)`
+* `import math` / `import pkg.mod as m` / `from pkg import mod` with uses `m.name`   ->   `from pkg.mod import name` with uses
+  `name`: only for the standard modules `math`, `decimal` and for modules found as files of the repository package, only when
+  the alias is never rebound, and only for names that nothing else in the file binds (otherwise that use is left as it is)
+
 The rewritten nodes keep the line numbers of the originals, so error messages still point at the source."""
 import ast
+import os
+
+STD_MODULES = ('math', 'decimal')
+
+
+def _package_root(path):
+    d = os.path.dirname(os.path.abspath(path))
+    while os.path.exists(os.path.join(d, '__init__.py')):
+        d = os.path.dirname(d)
+    return d
+
+
+def _is_repo_module(dotted, path):
+    if not path:
+        return False
+    root = _package_root(path)
+    return os.path.isfile(os.path.join(root, *dotted.split('.')) + '.py')
+
+
+def _bound_names(tree):
+    out = set()
+    for n in ast.walk(tree):
+        if isinstance(n, ast.Name) and isinstance(n.ctx, (ast.Store, ast.Del)):
+            out.add(n.id)
+        elif isinstance(n, ast.arg):
+            out.add(n.arg)
+        elif isinstance(n, (ast.FunctionDef, ast.AsyncFunctionDef, ast.ClassDef)):
+            out.add(n.name)
+        elif isinstance(n, (ast.Global, ast.Nonlocal)):
+            out.update(n.names)
+        elif isinstance(n, ast.ExceptHandler) and n.name:
+            out.add(n.name)
+    return out
+
+
+def _normalise_imports(tree, path):
+    aliases = {}                      # local alias -> dotted module
+    imported = {}                     # plain imported name -> module it comes from
+    for node in tree.body:
+        if isinstance(node, ast.Import):
+            for a in node.names:
+                if a.name in STD_MODULES or (a.asname and _is_repo_module(a.name, path)):
+                    aliases[a.asname or a.name] = a.name
+        elif isinstance(node, ast.ImportFrom) and node.level == 0 and node.module:
+            for a in node.names:
+                dotted = node.module + '.' + a.name
+                if _is_repo_module(dotted, path):
+                    aliases[a.asname or a.name] = dotted
+                else:
+                    imported[a.asname or a.name] = node.module if not a.asname else None
+    if not aliases:
+        return tree
+    bound = _bound_names(tree)
+    aliases = {k: v for k, v in aliases.items() if k not in bound}
+    used = {}                          # dotted module -> names taken from it
+    left = set()                       # aliases still used in some other way
+
+    class Rw(ast.NodeTransformer):
+        def visit_Attribute(self, n):
+            if isinstance(n.value, ast.Name) and n.value.id in aliases and isinstance(n.ctx, ast.Load):
+                mod = aliases[n.value.id]
+                if n.attr not in bound and imported.get(n.attr, mod) == mod and n.attr not in aliases:
+                    used.setdefault(mod, set()).add(n.attr)
+                    return ast.copy_location(ast.Name(id=n.attr, ctx=ast.Load()), n)
+                left.add(n.value.id)
+                return n
+            self.generic_visit(n)
+            return n
+
+        def visit_Name(self, n):
+            if n.id in aliases:
+                left.add(n.id)
+            return n
+    tree = Rw().visit(tree)
+    body = []
+    for node in tree.body:
+        if isinstance(node, ast.Import):
+            node.names = [a for a in node.names if not ((a.asname or a.name) in aliases and (a.asname or a.name) not in left)]
+            if not node.names:
+                continue
+        elif isinstance(node, ast.ImportFrom) and node.level == 0 and node.module:
+            node.names = [a for a in node.names if not ((a.asname or a.name) in aliases and (a.asname or a.name) not in left
+                                                        and aliases[a.asname or a.name] == node.module + '.' + a.name)]
+            if not node.names:
+                continue
+        body.append(node)
+    # the new `from module import names` go where the first import was (after a module docstring)
+    at = next((i for i, n in enumerate(body) if isinstance(n, (ast.Import, ast.ImportFrom))), None)
+    if at is None:
+        at = 1 if body and isinstance(body[0], ast.Expr) and isinstance(getattr(body[0], 'value', None), ast.Constant) else 0
+    new = [ast.ImportFrom(module=mod, names=[ast.alias(name=n, asname=None) for n in sorted(names)], level=0)
+           for mod, names in sorted(used.items())]
+    tree.body = body[:at] + new + body[at:]
+    return tree
 
 
 class _Norm(ast.NodeTransformer):
@@ -38,6 +137,36 @@ class _Norm(ast.NodeTransformer):
                 return r
         return node
 
+    def visit_FunctionDef(self, node):
+        self.generic_visit(node)
+        counts = {}
+        for n in ast.walk(node):
+            if isinstance(n, ast.Name):
+                counts[n.id] = counts.get(n.id, 0) + 1
+
+        def merge(stmts):
+            out, i = [], 0
+            while i < len(stmts):
+                a = stmts[i]
+                b = stmts[i + 1] if i + 1 < len(stmts) else None
+                if isinstance(a, ast.Assign) and len(a.targets) == 1 and isinstance(a.targets[0], ast.Name) \
+                        and isinstance(a.value, ast.Call) and isinstance(b, ast.Assign) and len(b.targets) == 1 \
+                        and isinstance(b.targets[0], ast.Tuple) and isinstance(b.value, ast.Name) \
+                        and b.value.id == a.targets[0].id and counts.get(a.targets[0].id) == 2 \
+                        and not any(isinstance(x, ast.Name) and x.id == a.targets[0].id for x in ast.walk(b.targets[0])):
+                    out.append(ast.copy_location(ast.Assign(targets=b.targets, value=a.value, type_comment=None), a))
+                    i += 2
+                    continue
+                for fld in ('body', 'orelse', 'finalbody'):
+                    sub = getattr(a, fld, None)
+                    if isinstance(sub, list) and sub and isinstance(sub[0], ast.stmt) and not isinstance(a, (ast.FunctionDef, ast.ClassDef)):
+                        setattr(a, fld, merge(sub))
+                out.append(a)
+                i += 1
+            return out
+        node.body = merge(node.body)
+        return node
+
     def visit_If(self, node):
         self.generic_visit(node)
         if isinstance(node.test, ast.UnaryOp) and isinstance(node.test.op, ast.Not) and node.body and node.orelse \
@@ -47,7 +176,47 @@ class _Norm(ast.NodeTransformer):
         return node
 
 
-def normalise(tree):
+def trim_unused_trailing_params(fn):
+    """An additive API change gives a function a new trailing keyword parameter that nothing reads yet (or that only callers
+    outside the translated code pass). Such a parameter cannot influence the result, so the model is the function without it:
+    trailing parameters that (i) have a default which is a literal constant / None / a negated literal and (ii) are not read or
+    written anywhere in the body are removed from the signature here, in the AST, before anything else looks at it. A call site
+    in translated code that passes such a parameter then fails to translate (reported, never guessed)."""
+    dropped = []
+    a = fn.args
+    if a.vararg or a.kwarg or a.kwonlyargs or getattr(a, 'posonlyargs', None):
+        return dropped
+    names = set()
+    for b in fn.body:
+        for n in ast.walk(b):
+            if isinstance(n, ast.Name):
+                names.add(n.id)
+            elif isinstance(n, (ast.Global, ast.Nonlocal)):
+                names.update(n.names)
+            elif isinstance(n, ast.Call) and isinstance(n.func, ast.Name) and n.func.id in ('locals', 'vars', 'eval', 'exec'):
+                return dropped
+
+    def literal(d):
+        if isinstance(d, ast.Constant):
+            return True
+        return isinstance(d, ast.UnaryOp) and isinstance(d.op, (ast.USub, ast.UAdd)) and isinstance(d.operand, ast.Constant)
+    while a.defaults and a.args and a.args[-1].arg not in names and literal(a.defaults[-1]):
+        dropped.append(a.args[-1].arg)
+        a.args.pop()
+        a.defaults.pop()
+    return dropped[::-1]
+
+
+
+def normalise(tree, path=None):
+    tree = _normalise_imports(tree, path)
     tree = _Norm().visit(tree)
+    for node in tree.body:
+        if isinstance(node, ast.FunctionDef):
+            trim_unused_trailing_params(node)
+        elif isinstance(node, ast.ClassDef):
+            for m in node.body:
+                if isinstance(m, ast.FunctionDef):
+                    trim_unused_trailing_params(m)
     ast.fix_missing_locations(tree)
     return tree
